@@ -236,6 +236,12 @@ deriving Repr, DecidableEq
 
 def RState.missing (s : RState) : Bool := s.numTracks > s.started
 
+/-- big-endian value of a 4-byte field -/
+def lenOf4 (l : Bytes) : Nat :=
+  match l with
+  | [a, b, c, d] => a * 16777216 + b * 65536 + c * 256 + d
+  | _ => 0
+
 /-- the `for r.expectChunk` loop of `read()`: skip alien chunks until a track chunk starts -/
 def chunkLoop : Nat → Nat → Bytes → Except RErr (Nat × Bytes)
   | 0, _, _ => .error .fuel
@@ -244,9 +250,7 @@ def chunkLoop : Nat → Nat → Bytes → Except RErr (Nat × Bytes)
     let (len4, bs2) ← readN 4 bs1
     if typ = MTrk then pure (started + 1, bs2)
     else
-      let len := match len4 with
-        | [a, b, c, d] => a * 16777216 + b * 65536 + c * 256 + d
-        | _ => 0
+      let len := lenOf4 len4
       -- io.CopyN(ioutil.Discard, rd, len): short source = io.EOF
       if bs2.length < len then .error .eof
       else chunkLoop f started (bs2.drop len)
@@ -283,6 +287,17 @@ def readLoop : Nat → RState → Bytes → RState × RErr
 def parseTimeFormat (hi lo : Nat) : TimeFormat :=
   if hi < 128 then .metric (hi * 256 + lo) else .smpte (256 - hi) lo
 
+/-- big-endian value of a 2-byte field -/
+def val16 (l : Bytes) : Nat :=
+  match l with
+  | [a, b] => a * 256 + b
+  | _ => 0
+
+def tfOf2 (l : Bytes) : TimeFormat :=
+  match l with
+  | [a, b] => parseTimeFormat a b
+  | _ => .metric 0
+
 inductive RRes
   | ok (f : File)
   | error (e : RErr)
@@ -301,16 +316,16 @@ def readFrom (bs : Bytes) : RRes :=
   match readN 2 bs2 with
   | .error e => .error e
   | .ok (fm, bs3) =>
-  let format := match fm with | [a, b] => a * 256 + b | _ => 0
+  let format := val16 fm
   if format > 2 then .error .other else
   match readN 2 bs3 with
   | .error e => .error e
   | .ok (nt, bs4) =>
-  let numTracks := match nt with | [a, b] => a * 256 + b | _ => 0
+  let numTracks := val16 nt
   match readN 2 bs4 with
   | .error e => .error e
   | .ok (dv, bs5) =>
-  let tf := match dv with | [a, b] => parseTimeFormat a b | _ => .metric 0
+  let tf := tfOf2 dv
   let s0 : RState := ⟨numTracks, 0, true, 0, false, List.replicate numTracks []⟩
   let (s, e) := readLoop (bs5.length + 2) s0 bs5
   if s.missing then .error .missing
